@@ -45,3 +45,22 @@ func vHarnessRoundTrip1() { vRoundTrip(1) }
 func vHarnessRoundTrip2() { vRoundTrip(2) }
 func vHarnessRoundTrip3() { vRoundTrip(3) }
 func vHarnessRoundTrip4() { vRoundTrip(4) }
+
+// Concrete vectors (the shape of the repository's own compkey tests): the
+// interpreter must compute exactly what the Go code computes on constants.
+func vHarnessConcreteVectors() {
+	k := &vKey{in: [][]byte{[]byte("hello"), {0, 0, 0, 0, 0, 0, 0, 100}}}
+	bz, err := Encode(k)
+	vCheck(err == nil, "vector: encode succeeds")
+	want := []byte{5, 'h', 'e', 'l', 'l', 'o', 8, 0, 0, 0, 0, 0, 0, 0, 100}
+	vCheck(vBytesEqual(bz, want), "vector: Encode(hello,100) is 05 68656c6c6f 08 0000000000000064")
+	p, perr := PartialEncode(k, 1)
+	vCheck(perr == nil && vBytesEqual(p, want[:6]), "vector: PartialEncode(1) is the first six bytes")
+	d := &vKey{}
+	vCheck(Decode(want[:len(want)-1], d) != nil, "vector: a truncated encoding is rejected")
+	d2 := &vKey{}
+	vCheck(Decode(want, d2) == nil && len(d2.out) == 2 && vBytesEqual(d2.out[0], []byte("hello")), "vector: decode returns the components")
+	_, e3 := PartialEncode(k, 3)
+	vCheck(e3 != nil, "vector: PartialEncode beyond the arity is rejected")
+	vCover("concrete vectors")
+}
